@@ -127,7 +127,27 @@ fn rough_capacity(s: &SizeInfo) -> usize {
 }
 
 /// A Msg producer that actually fits `s` (forced via a single-size list), else Raw.
+/// Positions in a real encoder output where the stream's structure lives: pad start, latches, unlatches,
+/// ECI / macro / FNC1 codewords, codewords that merely look like a pad - and their neighbours.
+fn stream_landmarks(data: &[u8]) -> Vec<usize> {
+    let mut out: Vec<usize> = Vec::new();
+    for (i, b) in data.iter().enumerate() {
+        if matches!(*b, 129 | 230..=241 | 254) {
+            for j in i.saturating_sub(1)..=(i + 1).min(data.len() - 1) {
+                if !out.contains(&j) {
+                    out.push(j);
+                }
+            }
+        }
+    }
+    out
+}
+
 fn msg_producer_for_size(rng: &mut Rng, s: &SizeInfo, eci: Option<u32>) -> Producer {
+    msg_producer_for_size_d(rng, s, eci).0
+}
+
+fn msg_producer_for_size_d(rng: &mut Rng, s: &SizeInfo, eci: Option<u32>) -> (Producer, Vec<u8>) {
     let cap = rough_capacity(s);
     let fill = rng.range(1, 2 * cap);
     let mut msg = gen_message(rng, fill);
@@ -136,8 +156,8 @@ fn msg_producer_for_size(rng: &mut Rng, s: &SizeInfo, eci: Option<u32>) -> Produ
     let fnc1 = rng.chance(1, 8);
     for _ in 0..5 {
         match produce_msg(&msg, &ListSpec::Single(s.idx), modes, macros, fnc1, eci) {
-            Ok(Some(_)) => {
-                return Producer::Msg { msg, list: ListSpec::Single(s.idx), modes, macros, fnc1, eci };
+            Ok(Some((_, data, _))) => {
+                return (Producer::Msg { msg, list: ListSpec::Single(s.idx), modes, macros, fnc1, eci }, data);
             }
             _ => {
                 let nl = msg.len() / 2;
@@ -145,15 +165,19 @@ fn msg_producer_for_size(rng: &mut Rng, s: &SizeInfo, eci: Option<u32>) -> Produ
             }
         }
     }
-    Producer::Raw { size: s.idx, data: raw_data(rng, s) }
+    (Producer::Raw { size: s.idx, data: raw_data(rng, s) }, Vec::new())
 }
 
 fn producer_for_size(rng: &mut Rng, s: &SizeInfo, msg_pct: usize) -> Producer {
+    producer_for_size_d(rng, s, msg_pct).0
+}
+
+fn producer_for_size_d(rng: &mut Rng, s: &SizeInfo, msg_pct: usize) -> (Producer, Vec<u8>) {
     let pct = if s.n_data > 200 { msg_pct / 5 } else { msg_pct };
     if rng.below(100) < pct {
-        msg_producer_for_size(rng, s, None)
+        msg_producer_for_size_d(rng, s, None)
     } else {
-        Producer::Raw { size: s.idx, data: raw_data(rng, s) }
+        (Producer::Raw { size: s.idx, data: raw_data(rng, s) }, Vec::new())
     }
 }
 
@@ -1181,6 +1205,28 @@ pub fn fabricate_stream(rng: &mut Rng) -> Vec<u8> {
                 }
             }
             12 => out.push(*rng.pick(&[233u8, 234, 242, 243, 255, 0, 232, 236, 237])),
+            13 if rng.chance(1, 2) => {
+                // the macro envelope written out as data although (or because) a macro codeword is present:
+                // RS EOT trailer, optionally with a charset switch before, inside or after it; or the header
+                match rng.below(6) {
+                    0 => out.extend_from_slice(&[31, 5]),
+                    1 => {
+                        out.extend_from_slice(&[31, 5]);
+                        eci_bytes(rng, &mut out);
+                    }
+                    2 => {
+                        out.push(31);
+                        eci_bytes(rng, &mut out);
+                        out.push(5);
+                    }
+                    3 => {
+                        eci_bytes(rng, &mut out);
+                        out.extend_from_slice(&[31, 5]);
+                    }
+                    4 => out.extend_from_slice(&[92, 42, 63, 31, 49, if rng.bit() { 54 } else { 55 }, 30]), // "[)>" RS "05"/"06" GS
+                    _ => out.extend_from_slice(&[31, 5, 31, 5]),
+                }
+            }
             _ => out.push(rng.byte()),
         }
     }
@@ -1277,8 +1323,36 @@ pub fn generate(ctx: &Ctx, prop: &str, seed: u64, i: u64) -> Trace {
 
 fn gen_c03(ctx: &Ctx, rng: &mut Rng, i: u64) -> Trace {
     let s = &SIZES[pick_size(rng, i, false)];
-    let producer = producer_for_size(rng, s, 25);
+    let (producer, msg_data) = producer_for_size_d(rng, s, 25);
     let mut faults = Vec::new();
+    let t = gen_c03_faults(ctx, rng, s, &mut faults);
+    // real encoder output: aim one more error (still within the budget) at a landmark of the stream
+    if !msg_data.is_empty() && t && rng.chance(1, 2) {
+        let marks = stream_landmarks(&msg_data);
+        if !marks.is_empty() {
+            let p = *rng.pick(&marks);
+            let mut touched: Vec<usize> = Vec::new();
+            for f in &faults {
+                if let Op::CwXor { pos, .. } | Op::CwSet { pos, .. } = &f.op {
+                    if !touched.contains(&(*pos as usize)) {
+                        touched.push(*pos as usize);
+                    }
+                }
+            }
+            let in_block = touched.iter().filter(|q| s.block_of(**q) == s.block_of(p)).count();
+            if !touched.contains(&p) && in_block < s.t() {
+                let vk = pick_valkind(rng);
+                faults.push(value_fault(rng, vk, Some("cw_edge"), p));
+            }
+        }
+    }
+    Trace { prop: "C03".into(), producer, faults }
+}
+
+/// Returns true when the plan consists of codeword-stage faults only (so that more may be added by position).
+fn gen_c03_faults(ctx: &Ctx, rng: &mut Rng, s: &SizeInfo, faults_out: &mut Vec<Fault>) -> bool {
+    let mut faults = Vec::new();
+    let mut cw_stage = true;
     match rng.below(20) {
         0 => {} // zero-fault control: the decoder must leave the encoder's own output untouched
         1..=9 => {
@@ -1294,14 +1368,19 @@ fn gen_c03(ctx: &Ctx, rng: &mut Rng, i: u64) -> Trace {
         }
         14..=16 => {
             // chosen codewords, damaged through their modules
+            cw_stage = false;
             let w = bounded_weights(rng, s);
             let mut tmp = Vec::new();
             let positions = weighted_cw_faults(rng, s, &w, &mut tmp);
             cw_via_pixels(ctx, rng, s, &positions, &mut faults);
         }
-        _ => data_module_faults(ctx, rng, s, Some(s.t()), &mut faults),
+        _ => {
+            cw_stage = false;
+            data_module_faults(ctx, rng, s, Some(s.t()), &mut faults)
+        }
     }
-    Trace { prop: "C03".into(), producer, faults }
+    faults_out.extend(faults);
+    cw_stage
 }
 
 fn gen_c09(ctx: &Ctx, rng: &mut Rng, i: u64) -> Trace {
